@@ -466,7 +466,9 @@ def _explore(out, tier, seed, facts, replay):
                      ["verif", fn, "-m", "mae", "-r", "1..2"], ["verif", fn, "-m", "mae", "-l", "1-2"], ["verif", fn, "-m", "quantilescore", "-q", "1:0"],
                      ["verif", fn, "-m", "mae", "-d", "20120101:0.5:20120103"], ["verif", fn, "-m", "mae", "-agg", "nan"], ["verif", fn, "-m", "mae", "-Tagg", "nan", "-T", "2"],
                      ["verif", fn, "-m", "mae", "-T", "1.5"], ["verif", fn, "-m", "mae", "-dpi", "abc"], ["verif", fn, "-m", "mae", "-fcst", "threshold:"],
-                     ["verif", fn, "-m", "mae", "-fcst", "threshold"], ["verif", fn, "", "-m", "mae"]):
+                     ["verif", fn, "-m", "mae", "-fcst", "threshold"], ["verif", fn, "", "-m", "mae"],
+                     ["verif", fn, "-m", "obsfcst", "-type", "nosuchtype"], ["verif", fn, "-m", "mae", "-xlim", "5"], ["verif", fn, "-m", "mae", "-ylim", "1,2,3"],
+                     ["verif", fn, "-m", "mae", "-fs", "a,b"], ["verif", fn, "-m", "mae", "-fs", "5"], ["verif", fn, "-m", "mae", "-aspect", "0"]):
             signal.alarm(20)
             try:
                 r = run_cli(argv + ["-type", "csv"] if "-type" not in argv else argv)
